@@ -2,14 +2,14 @@
 #include "common/c08_core.hpp"
 using namespace vf;
 
-static void bcsr_case(Tape& t, Ctx& c, int kind)
+static void bcsr_case(Tape& t, Ctx& c, int kind, int n2 = 8, int n3 = 6)
 {
   switch(t.pick({4, 2, 3, 1}))
   {
-  case 0: { c08::Runner<double, std::uint64_t, 2> r(t, c); r.run(8, kind); break; }
-  case 1: { c08::Runner<float, std::uint32_t, 2> r(t, c); r.run(8, kind); break; }
-  case 2: { c08::Runner<double, std::uint64_t, 3> r(t, c); r.run(6, kind); break; }
-  default: { c08::Runner<float, std::uint64_t, 3> r(t, c); r.run(6, kind); break; }
+  case 0: { c08::Runner<double, std::uint64_t, 2> r(t, c); r.run(n2, kind); break; }
+  case 1: { c08::Runner<float, std::uint32_t, 2> r(t, c); r.run(n2, kind); break; }
+  case 2: { c08::Runner<double, std::uint64_t, 3> r(t, c); r.run(n3, kind); break; }
+  default: { c08::Runner<float, std::uint64_t, 3> r(t, c); r.run(n3, kind); break; }
   }
 }
 
@@ -19,5 +19,6 @@ int main(int argc, char** argv)
   std::vector<Target> tg;
   tg.push_back({"bcsr", [](Tape& t, Ctx& c) { bcsr_case(t, c, -1); }, 192, 14});
   tg.push_back({"bcsr_ilu", [](Tape& t, Ctx& c) { bcsr_case(t, c, c08::K_ILU); }, 192, 14});
+  tg.push_back({"bcsr_big", [](Tape& t, Ctx& c) { bcsr_case(t, c, -1, 14, 10); }, 512, 48});   // thorough tier only
   return main_impl(argc, argv, tg);
 }
